@@ -30,6 +30,7 @@ class Ctx:
         self.sim = None  # current SimWorld simulation (set by simworld)
         self.enabled = True
         self.values = {}  # misc named values read by programs
+        self.flags = set()  # state set by the program itself in the course of one simulation
 
 
 CTX = Ctx()
@@ -52,6 +53,14 @@ def tab(k):
     if t < len(row):
         return bool(row[t])
     return bool(row[-1]) if row else CTX.default
+
+
+def setflag(name):
+    CTX.flags.add(name)
+
+
+def flag(name):
+    return name in CTX.flags
 
 
 def tabv(k):
